@@ -1,6 +1,8 @@
 (* C03 - interrupted commands leave a consistent, usable repository. *)
 From Coq Require Import List Arith Bool.
 From Replicat Require Import Model.Repo Proofs.RepoProofs Proofs.RepoTie Gen.RepoFacts.
+From Replicat Require Import Model.Store Model.LocalFs Proofs.LocalFsProofs Proofs.LocalRefine.
+From Replicat Require Gen.C13Facts.
 Import ListNotations.
 
 (* the step relation contains a crash of any running snapshot instance at any point (S_crash) and of
@@ -32,6 +34,24 @@ Theorem C03_source_order_facts :
   (fact_delete_keeps_chunks_of_all_other_loaded_snapshots && fact_delete_refuses_before_mutating && fact_delete_snapshots_then_chunks = true).
 Proof. exact (conj fact_snapshot_order fact_delete_shape). Qed.
 Print Assumptions C03_source_order_facts.
+
+(* local backend, INSIDE a mutation: at every one of the micro-steps of an upload (temp file created,
+   partially / fully written, renamed) every legal name reads either as before or as after the whole
+   upload - never a partial object (directory-tree model of Model/LocalFs.v, proved for C13) *)
+Theorem C03_local_upload_atomic : forall U, legalU U -> forall f st n d tmp k, l_rel U f st -> In n U -> tmp_ok U n tmp ->
+  exists fk, l_upload_prefix k n d tmp f = Some fk /\
+    ((forall u, In u U -> l_read u fk = alookup path_eqb u st) \/
+     (forall u, In u U -> l_read u fk = alookup path_eqb u (aput path_eqb n d st))).
+Proof. exact local_upload_atomic. Qed.
+Print Assumptions C03_local_upload_atomic.
+
+(* ... and the facts that make that model the code: temp file beside the destination, written first,
+   then replace(); listing hides the temp suffix *)
+Theorem C03_local_source_facts :
+  C13Facts.local_temp_then_replace = true /\ C13Facts.local_tmp_in_parent = true /\
+  C13Facts.local_list_suffix_filter = C13Facts.local_tmp_suffix.
+Proof. exact (conj eq_refl (conj eq_refl eq_refl)). Qed.
+Print Assumptions C03_local_source_facts.
 
 (* non-vacuity: a snapshot instance crashes after uploading one of two chunks: orphan (0,5) *)
 Example C03_concrete :
